@@ -167,8 +167,11 @@ fn main() {
         let mut wires = vec![];
         let mut kinds: Vec<&str> = vec![];
         let mut first_class = 1u16;
+        // two zones in three consist of the types whose reading ZoneFile.tla decides
+        let modelled = rng.chance(2, 3);
         while recs.len() < k {
             let (owner, mut class, ttl, rtype, rdata) = gen_record(&mut rng);
+            if modelled && ![16u16, 13, 2, 5, 12, 39, 15, 65280, 1234].contains(&rtype) { continue; }
             if recs.is_empty() { first_class = class; } else if uniform { class = first_class; }
             let rec = match zf::record_from_wire(&owner, class, ttl, rtype, &rdata) {
                 Ok(r) => r,
